@@ -110,6 +110,11 @@ def boot(repo_src):
     return {"package": pkg_file, "synthetic_version": synthetic_version}
 
 
+def _wall_guard(spec):
+    n = len(spec.get("ops") or []) + len((spec.get("session") or {}).get("lines") or [])
+    return RUN_WALL_GUARD_S + 4 * n
+
+
 def do_run(spec, helper_cache, new_helpers=None):
     from sim import helper as helper_mod
     c2p_r, c2p_w = os.pipe()
@@ -119,7 +124,7 @@ def do_run(spec, helper_cache, new_helpers=None):
         try:
             os.close(c2p_r)
             os.close(p2c_w)
-            signal.alarm(RUN_WALL_GUARD_S)
+            signal.alarm(_wall_guard(spec))
             from sim import execrun
             try:
                 res = execrun.execute(spec, lambda o: send(c2p_w, o), lambda: recv(p2c_r))
@@ -139,15 +144,17 @@ def do_run(spec, helper_cache, new_helpers=None):
         if "helper" in msg:
             h = msg["helper"]
             key = (h["script"], h["mode"], h["data"])
-            oc = helper_cache.get(key)
+            args = h.get("args") or []
+            oc = helper_cache.get(key) if not args else None
             if oc is None:
-                oc = helper_mod.intrinsic_outcome(h["script"], h["mode"], bytes.fromhex(h["data"]))
+                oc = helper_mod.intrinsic_outcome(h["script"], h["mode"], bytes.fromhex(h["data"]), args)
                 for k in ("out", "err"):
                     if k in oc:
                         oc[k] = oc[k].hex()
-                helper_cache[key] = oc
-                if new_helpers is not None:
-                    new_helpers.append([list(key), oc])
+                if not args:
+                    helper_cache[key] = oc
+                    if new_helpers is not None:
+                        new_helpers.append([list(key), oc])
             try:
                 send(p2c_w, oc)
             except OSError:
@@ -161,7 +168,7 @@ def do_run(spec, helper_cache, new_helpers=None):
     if result is None:
         if os.WIFSIGNALED(status):
             sig = os.WTERMSIG(status)
-            what = "wall-clock guard (%d s)" % RUN_WALL_GUARD_S if sig == signal.SIGALRM else "signal %d" % sig
+            what = "wall-clock guard (%d s)" % _wall_guard(spec) if sig == signal.SIGALRM else "signal %d" % sig
             return {"harness_error": "run fork killed by %s" % what}
         return {"harness_error": "run fork exited without a result (status %d)" % status}
     return result
